@@ -36,6 +36,7 @@ def main(argv):
         mod = _mod(prop)
         if job.get("prefix"):
             pf = job["prefix"]
+            os.environ["VERIF_TIER_INTERNAL"] = pf.get("tier", "quick")
             last = mod.digests(pf["seed"], pf["lo"], pf["run"] + 1)[-1]
             fps = last.split(":", 1)[1].split(",")
             if job["fp"] not in fps:
@@ -59,6 +60,7 @@ def main(argv):
         try:
             if head.get("prefix"):
                 pf = head["prefix"]
+                os.environ["VERIF_TIER_INTERNAL"] = pf.get("tier", "quick")
                 last = _mod(prop).digests(pf["seed"], pf["lo"], pf["run"] + 1)[-1]
                 ok = last == pf["expect"] and head["oracle"] in last.split(":", 1)[1].split(",")
                 msg = f"replayed runs {pf['lo']}..{pf['run']}: {last} expected {pf['expect']}"
